@@ -1,0 +1,214 @@
+//! Verification hook (compiled only with `--cfg era_consensus_verif`).
+//! Exposes a step-driven replica to an out-of-crate harness: start from the persisted state,
+//! handle exactly one message (dispatching as `StateMachine::run` does), fire the view timeout,
+//! and take a read-only snapshot. No behaviour is added.
+#![allow(missing_docs, unreachable_pub, clippy::missing_docs_in_private_items)]
+use std::sync::Arc;
+
+use zksync_concurrency::{ctx, sync};
+use zksync_consensus_roles::validator;
+
+use super::{commit, new_view, proposal, timeout, StateMachine};
+use crate::{Config, FromNetworkMessage, ToNetworkMessage};
+
+/// Outcome of processing one message.
+#[derive(Debug, Clone)]
+pub struct Outcome {
+    /// `true` iff the handler returned `Ok(())`.
+    pub accepted: bool,
+    /// Name of the error variant (or "ok"); informational.
+    pub class: &'static str,
+}
+
+/// Read-only projection of the replica state.
+#[derive(Debug, Clone)]
+pub struct Snapshot {
+    pub view: validator::ViewNumber,
+    pub phase: validator::v2::Phase,
+    pub high_vote: Option<validator::v2::ReplicaCommit>,
+    pub high_commit_qc: Option<validator::v2::CommitQC>,
+    pub high_timeout_qc: Option<validator::v2::TimeoutQC>,
+    /// (block number, payload hash) of every cached proposal.
+    pub proposals: Vec<(validator::BlockNumber, validator::PayloadHash)>,
+    /// Entries of `commit_views_cache`.
+    pub commit_views: Vec<(validator::PublicKey, validator::ViewNumber)>,
+    /// Per view: (vote, signers) of the partial commit certificates.
+    pub commit_qcs: Vec<(validator::ViewNumber, Vec<(validator::v2::ReplicaCommit, validator::v2::Signers)>)>,
+    /// Entries of `timeout_views_cache`.
+    pub timeout_views: Vec<(validator::PublicKey, validator::ViewNumber)>,
+    /// Per view: the partial timeout certificate.
+    pub timeout_qcs: Vec<(validator::ViewNumber, validator::v2::TimeoutQC)>,
+}
+
+/// Step-driven replica.
+#[derive(Debug)]
+pub struct Replica {
+    sm: StateMachine,
+    /// Kept alive so that the replica's inbound receiver does not observe a closed channel.
+    pub inbound: sync::prunable_mpsc::Sender<FromNetworkMessage>,
+}
+
+impl Replica {
+    /// Same as `StateMachine::start` (restores the backup of the same epoch).
+    pub async fn start(
+        ctx: &ctx::Ctx,
+        config: Arc<Config>,
+        outbound: ctx::channel::UnboundedSender<ToNetworkMessage>,
+    ) -> ctx::Result<(
+        Self,
+        sync::watch::Receiver<Option<validator::v2::ProposalJustification>>,
+    )> {
+        let (inbound, inbound_recv) = crate::create_input_channel();
+        let (proposer_sender, proposer_receiver) = sync::watch::channel(None);
+        let sm = StateMachine::start(ctx, config, outbound, inbound_recv, proposer_sender).await?;
+        Ok((Self { sm, inbound }, proposer_receiver))
+    }
+
+    /// The first thing `StateMachine::run` does: view 0 times out immediately.
+    pub async fn boot(&mut self, ctx: &ctx::Ctx) -> ctx::Result<bool> {
+        if self.sm.view_number == validator::ViewNumber(0) {
+            self.sm.start_timeout(ctx).await?;
+            return Ok(true);
+        }
+        Ok(false)
+    }
+
+    /// What `StateMachine::run` does when the view timer expires.
+    pub async fn timer_expired(&mut self, ctx: &ctx::Ctx) -> ctx::Result<()> {
+        self.sm.start_timeout(ctx).await
+    }
+
+    /// What `StateMachine::run` does with one received message.
+    pub async fn handle(
+        &mut self,
+        ctx: &ctx::Ctx,
+        msg: validator::Signed<validator::ConsensusMsg>,
+    ) -> ctx::Result<Outcome> {
+        let validator::ConsensusMsg::V2(m) = &msg.msg;
+        let ok = Outcome {
+            accepted: true,
+            class: "ok",
+        };
+        let rej = |class| Outcome {
+            accepted: false,
+            class,
+        };
+        Ok(match m {
+            validator::v2::ChonkyMsg::LeaderProposal(_) => {
+                match self.sm.on_proposal(ctx, msg.cast().unwrap()).await {
+                    Ok(()) => ok,
+                    Err(proposal::Error::Internal(err)) => return Err(err),
+                    Err(proposal::Error::Old { .. }) => rej("Old"),
+                    Err(proposal::Error::InvalidLeader { .. }) => rej("InvalidLeader"),
+                    Err(proposal::Error::InvalidSignature(_)) => rej("InvalidSignature"),
+                    Err(proposal::Error::InvalidMessage(_)) => rej("InvalidMessage"),
+                    Err(proposal::Error::ProposalAlreadyPruned) => rej("ProposalAlreadyPruned"),
+                    Err(proposal::Error::ReproposalWithPayload) => rej("ReproposalWithPayload"),
+                    Err(proposal::Error::MissingPayload) => rej("MissingPayload"),
+                    Err(proposal::Error::ProposalOversizedPayload { .. }) => {
+                        rej("ProposalOversizedPayload")
+                    }
+                    Err(proposal::Error::MissingPreviousPayload { .. }) => {
+                        rej("MissingPreviousPayload")
+                    }
+                    Err(proposal::Error::InvalidPayload(_)) => rej("InvalidPayload"),
+                }
+            }
+            validator::v2::ChonkyMsg::ReplicaCommit(_) => {
+                match self.sm.on_commit(ctx, msg.cast().unwrap()).await {
+                    Ok(()) => ok,
+                    Err(commit::Error::Internal(err)) => return Err(err),
+                    Err(commit::Error::NonValidatorSigner { .. }) => rej("NonValidatorSigner"),
+                    Err(commit::Error::Old { .. }) => rej("Old"),
+                    Err(commit::Error::DuplicateSigner { .. }) => rej("DuplicateSigner"),
+                    Err(commit::Error::InvalidSignature(_)) => rej("InvalidSignature"),
+                    Err(commit::Error::InvalidMessage(_)) => rej("InvalidMessage"),
+                }
+            }
+            validator::v2::ChonkyMsg::ReplicaTimeout(_) => {
+                match self.sm.on_timeout(ctx, msg.cast().unwrap()).await {
+                    Ok(()) => ok,
+                    Err(timeout::Error::Internal(err)) => return Err(err),
+                    Err(timeout::Error::NonValidatorSigner { .. }) => rej("NonValidatorSigner"),
+                    Err(timeout::Error::Old { .. }) => rej("Old"),
+                    Err(timeout::Error::DuplicateSigner { .. }) => rej("DuplicateSigner"),
+                    Err(timeout::Error::InvalidSignature(_)) => rej("InvalidSignature"),
+                    Err(timeout::Error::InvalidMessage(_)) => rej("InvalidMessage"),
+                }
+            }
+            validator::v2::ChonkyMsg::ReplicaNewView(_) => {
+                match self.sm.on_new_view(ctx, msg.cast().unwrap()).await {
+                    Ok(()) => ok,
+                    Err(new_view::Error::Internal(err)) => return Err(err),
+                    Err(new_view::Error::NonValidatorSigner { .. }) => rej("NonValidatorSigner"),
+                    Err(new_view::Error::Old { .. }) => rej("Old"),
+                    Err(new_view::Error::InvalidSignature(_)) => rej("InvalidSignature"),
+                    Err(new_view::Error::InvalidMessage(_)) => rej("InvalidMessage"),
+                }
+            }
+        })
+    }
+
+    /// Read-only snapshot.
+    pub fn snapshot(&self) -> Snapshot {
+        let sm = &self.sm;
+        Snapshot {
+            view: sm.view_number,
+            phase: sm.phase,
+            high_vote: sm.high_vote.clone(),
+            high_commit_qc: sm.high_commit_qc.clone(),
+            high_timeout_qc: sm.high_timeout_qc.clone(),
+            proposals: sm
+                .block_proposal_cache
+                .iter()
+                .flat_map(|(n, m)| m.keys().map(|h| (*n, *h)))
+                .collect(),
+            commit_views: sm
+                .commit_views_cache
+                .iter()
+                .map(|(k, v)| (k.clone(), *v))
+                .collect(),
+            commit_qcs: sm
+                .commit_qcs_cache
+                .iter()
+                .map(|(v, m)| {
+                    (
+                        *v,
+                        m.iter()
+                            .map(|(c, qc)| (c.clone(), qc.signers.clone()))
+                            .collect(),
+                    )
+                })
+                .collect(),
+            timeout_views: sm
+                .timeout_views_cache
+                .iter()
+                .map(|(k, v)| (k.clone(), *v))
+                .collect(),
+            timeout_qcs: sm
+                .timeout_qcs_cache
+                .iter()
+                .map(|(v, qc)| (*v, qc.clone()))
+                .collect(),
+        }
+    }
+
+    /// Configuration of the replica.
+    pub fn config(&self) -> &Arc<Config> {
+        &self.sm.config
+    }
+}
+
+/// Same as `proposer::create_proposal` (what `run_proposer` calls for the leader of the view).
+pub async fn create_proposal(
+    ctx: &ctx::Ctx,
+    cfg: Arc<Config>,
+    justification: validator::v2::ProposalJustification,
+) -> ctx::Result<validator::v2::LeaderProposal> {
+    super::proposer::create_proposal(ctx, cfg, justification).await
+}
+
+/// The validator key of a config (the harness signs proposals with it, as `run_proposer` does).
+pub fn secret_key(cfg: &Config) -> &validator::SecretKey {
+    &cfg.secret_key
+}
